@@ -4,6 +4,7 @@ import (
 	"encoding/json"
 	"fmt"
 	"os"
+	"os/exec"
 	"path/filepath"
 	"regexp"
 	"sort"
@@ -45,16 +46,16 @@ type pMethod struct {
 }
 
 type pController struct {
-	Name    string    `json:"name"`
-	Pkg     string    `json:"pkg"`
-	File    string    `json:"file"`
-	Free    []string  `json:"free,omitempty"`
-	Annots  []pAnnot  `json:"annots"`
-	Methods []pMethod `json:"methods"`
-	NoEmbed bool      `json:"noEmbed,omitempty"` // a plain struct that does NOT embed GleeceController
-	Grouped bool      `json:"grouped,omitempty"` // declared inside a documented `type ( ... )` group
-	Unglobbed bool    `json:"unglobbed,omitempty"` // lives in a file no controllerGlob matches: must never contribute
-	FieldFirst bool   `json:"fieldFirst,omitempty"` // another package-qualified field is declared BEFORE the GleeceController embed
+	Name       string    `json:"name"`
+	Pkg        string    `json:"pkg"`
+	File       string    `json:"file"`
+	Free       []string  `json:"free,omitempty"`
+	Annots     []pAnnot  `json:"annots"`
+	Methods    []pMethod `json:"methods"`
+	NoEmbed    bool      `json:"noEmbed,omitempty"`    // a plain struct that does NOT embed GleeceController
+	Grouped    bool      `json:"grouped,omitempty"`    // declared inside a documented `type ( ... )` group
+	Unglobbed  bool      `json:"unglobbed,omitempty"`  // lives in a file no controllerGlob matches: must never contribute
+	FieldFirst bool      `json:"fieldFirst,omitempty"` // another package-qualified field is declared BEFORE the GleeceController embed
 }
 
 type pField struct {
@@ -66,17 +67,17 @@ type pField struct {
 }
 
 type pType struct {
-	Kind   string      `json:"kind"` // struct | enum | alias
-	Name   string      `json:"name"`
-	Pkg    string      `json:"pkg"`
-	File   string      `json:"file"`
-	Doc    []string    `json:"doc,omitempty"`
-	Fields []pField    `json:"fields,omitempty"`
-	Base   string      `json:"base,omitempty"`   // enum / alias underlying type
-	Assign bool        `json:"assign,omitempty"` // `type A = string`
-	Consts [][2]string `json:"consts,omitempty"` // enum: [name, literal]
-	Raw    string      `json:"raw,omitempty"`    // further declarations printed verbatim after this one
-	ConstsElsewhere int `json:"constsElsewhere,omitempty"` // enum: this many trailing constants are declared in a sibling file of the package
+	Kind            string      `json:"kind"` // struct | enum | alias
+	Name            string      `json:"name"`
+	Pkg             string      `json:"pkg"`
+	File            string      `json:"file"`
+	Doc             []string    `json:"doc,omitempty"`
+	Fields          []pField    `json:"fields,omitempty"`
+	Base            string      `json:"base,omitempty"`            // enum / alias underlying type
+	Assign          bool        `json:"assign,omitempty"`          // `type A = string`
+	Consts          [][2]string `json:"consts,omitempty"`          // enum: [name, literal]
+	Raw             string      `json:"raw,omitempty"`             // further declarations printed verbatim after this one
+	ConstsElsewhere int         `json:"constsElsewhere,omitempty"` // enum: this many trailing constants are declared in a sibling file of the package
 }
 
 type pConfig struct {
@@ -87,7 +88,7 @@ type pConfig struct {
 	DefaultSecurity *irSecComp `json:"defaultSecurity"`
 	PackageName     string     `json:"packageName"`
 	Globs           []string   `json:"globs"`
-	Raw             string     `json:"raw,omitempty"` // when set: the config file text, verbatim
+	Raw             string     `json:"raw,omitempty"`                      // when set: the config file text, verbatim
 	EnumValidator   bool       `json:"generateEnumValidator,omitempty"`    // experimentalConfig.generateEnumValidator
 	TopLevelEnum    bool       `json:"validateTopLevelOnlyEnum,omitempty"` // experimentalConfig.validateTopLevelOnlyEnum
 	ValidateResp    bool       `json:"validateResponsePayload,omitempty"`  // routesConfig.validateResponsePayload
@@ -99,7 +100,7 @@ type pProject struct {
 	Types       []pType       `json:"types"`
 	Engines     []string      `json:"engines"` // routers to render (default: the configured one)
 	Indent      string        `json:"indent,omitempty"`
-	Repeat      int           `json:"repeat,omitempty"` // C19: how many times the analysis is repeated on ONE pipeline
+	Repeat      int           `json:"repeat,omitempty"`      // C19: how many times the analysis is repeated on ONE pipeline
 	Determinism int           `json:"determinism,omitempty"` // C13: number of brand-new sessions whose bytes are compared
 	Echo        bool          `json:"echo,omitempty"`        // rig: controller methods record their arguments (package rigrec)
 	GroupParams bool          `json:"groupParams,omitempty"` // print consecutive same-typed parameters as one group: (a, b string, n int)
@@ -548,7 +549,7 @@ type projOut struct {
 	DupBlocks int      `json:"dupEntityBlocks"` // entity blocks repeated in the error text
 	IR        *irDoc   `json:"ir,omitempty"`
 	Out       *irOut   `json:"out,omitempty"`
-	Repeats   []string `json:"repeats,omitempty"` // C19: "same"/"different" canonical IR after each repeated analysis on ONE pipeline
+	Repeats   []string `json:"repeats,omitempty"`     // C19: "same"/"different" canonical IR after each repeated analysis on ONE pipeline
 	Counts    []int    `json:"graphCounts,omitempty"` // number of graph nodes after the first and after each repeated analysis
 	Fresh     string   `json:"fresh,omitempty"`       // brand-new pipeline vs the first analysis
 	Determ    *pDeterm `json:"determinism,omitempty"` // C13
@@ -608,7 +609,12 @@ func runProject(p pProject) (out projOut) {
 		return
 	}
 	dir, _ = filepath.EvalSymlinks(dir)
-	defer os.RemoveAll(dir)
+	defer func() {
+		if keep := os.Getenv("VH_KEEP_PROJ"); keep != "" {
+			exec.Command("cp", "-r", dir, keep).Run()
+		}
+		os.RemoveAll(dir)
+	}()
 	texts, err := writeProject(p, dir)
 	if err != nil {
 		out.SetupErr = err.Error()
@@ -680,7 +686,9 @@ func runProject(p pProject) (out projOut) {
 	ir := fromDefinitions(cfg, meta, p.Engines)
 	out.IR = &ir
 	// C19: repeated analysis on the same pipeline
-	countNodes := func() int { return len(pipe.Graph().FindByKind(allNodeKinds...)) + len(pipe.Graph().FindByKind(common.SymKindParameter, common.SymKindReturnType, common.SymKindComposite, common.SymKindTypeParam)) }
+	countNodes := func() int {
+		return len(pipe.Graph().FindByKind(allNodeKinds...)) + len(pipe.Graph().FindByKind(common.SymKindParameter, common.SymKindReturnType, common.SymKindComposite, common.SymKindTypeParam))
+	}
 	if p.Repeat > 0 {
 		out.Counts = append(out.Counts, countNodes())
 	}
